@@ -112,6 +112,11 @@ def check(run, project):
     t2(run, project)
     t6(run, project)
     t6b(run, project)
+    # T7 (= C15-F11): a text front-end must not turn the end of its input into a byte - a prefix that ends inside a digit
+    # pair would produce an event the whole input never has (prefix stability)
+    from ..report import RuleView as _RV
+    from . import c15 as _c15
+    _c15.f11(_RV(run, "F11", "T7"), project)
     # ---- T3
     forbidden = {roles.buffer_param, roles.iter_var}
     for c in walk_no_nested(fn):
